@@ -124,9 +124,45 @@ def schema_declaration_order(sp: int) -> bool:
     return out == CANON and errs == CANON_ERRS == []
 
 
-def schema_declaration_order_thorough(sp: int) -> bool:
+def schema_declaration_order_0_thorough(sp: int) -> bool:
     """
-    pre: 0 <= sp < 120
+    pre: 0 <= sp < 24
+    post: _
+    """
+    out, errs = _render(_doc(_perm(sorted(SCHEMAS), sp), sorted(PATHS)), set_perm=0)
+    return out == CANON and errs == CANON_ERRS == []
+
+
+def schema_declaration_order_1_thorough(sp: int) -> bool:
+    """
+    pre: 24 <= sp < 48
+    post: _
+    """
+    out, errs = _render(_doc(_perm(sorted(SCHEMAS), sp), sorted(PATHS)), set_perm=0)
+    return out == CANON and errs == CANON_ERRS == []
+
+
+def schema_declaration_order_2_thorough(sp: int) -> bool:
+    """
+    pre: 48 <= sp < 72
+    post: _
+    """
+    out, errs = _render(_doc(_perm(sorted(SCHEMAS), sp), sorted(PATHS)), set_perm=0)
+    return out == CANON and errs == CANON_ERRS == []
+
+
+def schema_declaration_order_3_thorough(sp: int) -> bool:
+    """
+    pre: 72 <= sp < 96
+    post: _
+    """
+    out, errs = _render(_doc(_perm(sorted(SCHEMAS), sp), sorted(PATHS)), set_perm=0)
+    return out == CANON and errs == CANON_ERRS == []
+
+
+def schema_declaration_order_4_thorough(sp: int) -> bool:
+    """
+    pre: 96 <= sp < 120
     post: _
     """
     out, errs = _render(_doc(_perm(sorted(SCHEMAS), sp), sorted(PATHS)), set_perm=0)
@@ -142,9 +178,45 @@ def path_declaration_order(pp: int) -> bool:
     return out == CANON and errs == CANON_ERRS == []
 
 
-def path_declaration_order_thorough(pp: int) -> bool:
+def path_declaration_order_0_thorough(pp: int) -> bool:
     """
-    pre: 0 <= pp < 120
+    pre: 0 <= pp < 24
+    post: _
+    """
+    out, errs = _render(_doc(sorted(SCHEMAS), _perm(sorted(PATHS), pp)), set_perm=0)
+    return out == CANON and errs == CANON_ERRS == []
+
+
+def path_declaration_order_1_thorough(pp: int) -> bool:
+    """
+    pre: 24 <= pp < 48
+    post: _
+    """
+    out, errs = _render(_doc(sorted(SCHEMAS), _perm(sorted(PATHS), pp)), set_perm=0)
+    return out == CANON and errs == CANON_ERRS == []
+
+
+def path_declaration_order_2_thorough(pp: int) -> bool:
+    """
+    pre: 48 <= pp < 72
+    post: _
+    """
+    out, errs = _render(_doc(sorted(SCHEMAS), _perm(sorted(PATHS), pp)), set_perm=0)
+    return out == CANON and errs == CANON_ERRS == []
+
+
+def path_declaration_order_3_thorough(pp: int) -> bool:
+    """
+    pre: 72 <= pp < 96
+    post: _
+    """
+    out, errs = _render(_doc(sorted(SCHEMAS), _perm(sorted(PATHS), pp)), set_perm=0)
+    return out == CANON and errs == CANON_ERRS == []
+
+
+def path_declaration_order_4_thorough(pp: int) -> bool:
+    """
+    pre: 96 <= pp < 120
     post: _
     """
     out, errs = _render(_doc(sorted(SCHEMAS), _perm(sorted(PATHS), pp)), set_perm=0)
